@@ -159,15 +159,17 @@ CLAIMED.update({
         "Coq proof (partial, see Properties/C12.v) + string-level correspondence evaluated in Coq",
         "DESIGN.md 4/C12"),
     "C13": (
-        "13 Coq theorems (coq/Properties/C13.v). Exact level on rationals: nearest within half a unit, on-grid values "
+        "15 Coq theorems (coq/Properties/C13.v). Exact level on rationals: nearest within half a unit, on-grid values "
         "unchanged, no drift under any number of re-wrappings, operations keep grid bounds, monotone, congruent; the old "
         "truncating formula refuted (finding F1). The binary64 evaluation (math.floor(x / P + 0.5) * P) is modelled with "
         "Coq primitive floats and tied bit-for-bit (float.hex) for n = 0..6; and, over the reals with Flocq's binary64 rounding, "
         "proved to stay within half a grid unit of the requested value plus 8 * 2^-53 * (|x| + P) + 2^-1072 * (P + 1) for every input, "
-        "to return bounds already on the float grid (up to 2^40 ticks) unchanged - no drift, rounding twice = once - and to be monotone.",
-        "Trusted: Coq kernel, its vm_compute and primitive-float operations; model coq/Model/Precision.v; harness. The five binary64 "
+        "to return bounds already on the float grid (up to 2^40 ticks) unchanged - no drift, rounding twice = once - and to be monotone; "
+        "the primitive-float model evaluated by the correspondence is proved equal to that real expression when nothing overflows.",
+        "Trusted: Coq kernel, its vm_compute and primitive-float operations; model coq/Model/Precision.v; harness. The seven binary64 "
         "theorems rely on the standard library's real-number axioms (ClassicalDedekindReals.sig_not_dec, sig_forall_dec, "
-        "functional_extensionality_dep, Classical_Prop.classic) and model IEEE arithmetic by Flocq's round.",
+        "functional_extensionality_dep, Classical_Prop.classic) and model IEEE arithmetic by Flocq's round; the two link theorems also use the "
+        "standard library's specification axioms of the primitive floats and 63-bit integers (FloatAxioms, Uint63).",
         "Coq proof (exact arithmetic) + bit-exact float correspondence evaluated in Coq",
         "DESIGN.md 4/C13"),
     "C14": (
